@@ -50,6 +50,13 @@ func ctorSpelling(r *base.Rand, names []string) string {
 	case 3:
 		return strings.Join(names, ", ") + "\tsee docs"
 	}
+	if r.Chance(1, 6) { // a long list: the real names last
+		var long []string
+		for i := 0; i < 30; i++ {
+			long = append(long, fmt.Sprintf("missingCtor%d", i))
+		}
+		return strings.Join(append(long, names...), ", ")
+	}
 	return strings.Join(names, ", ")
 }
 
